@@ -12,7 +12,7 @@ git -C $WT diff -- eqlog eqlog-runtime eqlog-eqlog/src > /tmp/confirm_$ID.diff
 if diff -q <(grep -v '^index ' /tmp/confirm_$ID.diff) <(grep -v '^index ' $DEMO/patch.diff) >/dev/null; then echo "patch.diff equals the worktree diff" >> $LOG; else echo "NOTE: patch.diff differs from the worktree diff; using the worktree diff" >> $LOG; fi
 cp /tmp/confirm_$ID.diff $OUT/patch.diff
 echo "== test suite with the change applied" >> $LOG
-( cd $WT && cargo test --workspace --no-fail-fast --offline 2>&1 | grep -E "^test result|FAILED|failed|^error" ) >> $LOG 2>&1
+( cd $WT && cargo build --offline -p eqlog-runtime >/dev/null 2>&1; cargo test --workspace --no-fail-fast --offline 2>&1 | grep -E "^test result|FAILED|failed|^error" ) >> $LOG 2>&1
 echo "== demonstration with the change applied (expected: non-zero exit)" >> $LOG
 ( cd $DEMO && timeout 1800 bash ./run.sh ) > $OUT/demo_with_change.log 2>&1; echo "exit=$?" >> $LOG; tail -5 $OUT/demo_with_change.log >> $LOG
 echo "== demonstration without the change (expected: exit 0)" >> $LOG
